@@ -29,7 +29,7 @@ RULE = (
     'create Entity/Solid/Side/VisGroup/EntityGroup with desired id in {-1, 0, negative, small, id of a live object}, copy() '
     'within / across maps with and without des_id, remove, re-add, drop the harness reference, gc.collect(), grab a reachable '
     'object, nodeid set/del/pop, fixup set/del/clear/setdefault/construction from FixupValue lists, collapse_one of a '
-    'generated preserve_ids=True template, constructor / parse calls that are rejected with the documented ValueError (Side '
+    'generated preserve_ids=True template (fresh Instance objects and earlier ones used again), constructor / parse calls that are rejected with the documented ValueError (Side '
     'with != 3 points; Side/Solid/Entity/VisGroup/EntityGroup.parse of malformed blocks - bad plane / uaxis / dispinfo / '
     'groupid / visgroupid / unknown block / bad output - whose ids equal ids of live objects, rejected part-way or tolerated) followed by further allocations.  After every command ids of all objects reachable from the maps are checked per kind.  '
     'Non-trivial = the history frees an id (remove / last reference dropped / nodeid or fixup deleted) and allocates one '
@@ -241,6 +241,7 @@ class World:
         self.failed_ctor = False        # a constructor / parse call was rejected earlier in the history
         self.last_op = ''
         self.n_collapse = 0
+        self.instances = []         # instancing.Instance objects of earlier collapses (no references to map objects)
 
     def log(self, text: str) -> None:
         self.trace.append(text)
@@ -1218,10 +1219,23 @@ def op_collapse(w: World, a, b, c, d, e):
             visgroup, vtxt = True, 'True'
     w.n_collapse += 1
     style = list(instancing.FixupStyle)[d % 3]
-    inst = instancing.Instance('inst%d' % w.n_collapse, 'tmpl.vmf', Vec(64 * w.n_collapse, 0, 0), Matrix(), style,
-                               fixup=[FixupValue('a', 'x', 1)])
+    # Instance objects are kept (they hold no map objects, only id tables) and every second collapse re-uses an earlier one,
+    # moved to a new position: its ent/brush/face/visgroup/node id tables persist from the previous collapse.
+    if w.instances and e % 2:
+        k = (e // 2) % len(w.instances)
+        inst = w.instances[k]
+        inst.pos = Vec(64 * w.n_collapse, 0, 0)
+        itxt = f'<Instance #{k} again, moved>'
+        w.flag('collapse_reused_instance')
+        if inst.node_ids:
+            w.flag('collapse_reused_instance_with_node_ids')
+    else:
+        inst = instancing.Instance('inst%d' % w.n_collapse, 'tmpl.vmf', Vec(64 * w.n_collapse, 0, 0), Matrix(), style,
+                                   fixup=[FixupValue('a', 'x', 1)])
+        w.instances.append(inst)
+        itxt = f'<Instance #{len(w.instances) - 1} = Instance({inst.name!r})>'
     instancing.collapse_one(vmf, inst, w.tmpl, visgroup=visgroup)
-    w.log(f'collapse_one(m{mi}, Instance({inst.name!r}), <template>, visgroup={vtxt})  -> ent ids {inst.ent_ids}, '
+    w.log(f'collapse_one(m{mi}, {itxt}, <template>, visgroup={vtxt})  -> ent ids {inst.ent_ids}, '
           f'brush ids {inst.brush_ids}, face ids {inst.face_ids}, visgroup ids {inst.visgroup_ids}, node ids {inst.node_ids}')
     for k in KINDS:
         w.note_alloc(k)
@@ -1341,7 +1355,8 @@ SUBCHECKS = [
                                     'reattach:ent')),
     _sub('fixup', 500, 14000, 50, ('alloc_after_free:fixup', 'fixup_list_duplicate_index', 'fixup_list_nonpositive_index',
                                    'fix_del', 'fixup_over_100')),
-    _sub('collapse', 400, 10000, 50, ('collapse_nonempty', 'collapse_twice', 'collapse_visgroup:True',
+    _sub('collapse', 400, 10000, 50, ('collapse_nonempty', 'collapse_twice', 'collapse_reused_instance_with_node_ids',
+                                      'collapse_visgroup:True',
                                       'collapse_visgroup:False', 'collapse_visgroup:object')),
     _sub('mixed', 800, 24000, 50, ('alloc_after_free:ent', 'parsed_colliding_ids', 'collapse_nonempty', 'drop_unreachable:ent',
                                    'failed_ctor_then_alloc')),
